@@ -399,3 +399,50 @@ def c08_g(ctx):
               'the inherited logpdf is not the plain logarithm of pdf (masked or floored '
               'logarithms return -inf where the density is positive)', fn=lp,
               node=rr[0] if rr else lp.node)
+
+
+def squeeze_conditions(ctx, f):
+    """Test terms of the `if`s in f that select the first element of a result buffer."""
+    ex = ctx.ex(f)
+    out = []
+    for n in own_nodes(f.node):
+        if isinstance(n, ast.If) and len(n.body) == 1 and isinstance(n.body[0], ast.Assign) and \
+                isinstance(n.body[0].value, ast.Subscript):
+            v = ex.raw(n.body[0].value)
+            if v[0] == 'sub' and v[2] == ('const', 0) and \
+                    isinstance(n.body[0].targets[0], ast.Name) and \
+                    v[1] == ('name', n.body[0].targets[0].id):
+                out.append((n, ex.term(n.test)))
+    return out
+
+
+@obligation('C08-h', 'T13', 'value and gradient agree on when a single point is returned '
+            'unwrapped', floor=2,
+            necessary='different conditions give a scalar density but a matrix gradient (or the '
+                      'reverse) for the same input shape')
+def c08_h(ctx):
+    mp = ctx.cls(MP)
+    ev = mp.lookup('_evaluate_pdf')
+    gl = ctx.own_method(mp, 'gradient_logpdf')
+    if ev is None:
+        raise AnchorMissing('evaluation method')
+    ctx.touch(ev)
+    ca, cb = squeeze_conditions(ctx, ev), squeeze_conditions(ctx, gl)
+    ok = len(ca) >= 1 and len(cb) >= 1 and set(t for (n, t) in ca) == set(t for (n, t) in cb)
+    ctx.check(ok, ev, 'same unwrap condition in value and gradient',
+              'ndim == 0 or (ndim == 1 and dim > 1) in both',
+              'value unwraps under {} but gradient under {}'.format(
+                  [show(t)[:60] for (n, t) in ca], [show(t)[:60] for (n, t) in cb]), fn=ev,
+              node=ca[0][0] if ca else ev.node)
+    want = pattern('np.asanyarray(x).ndim == 0 or (np.asanyarray(x).ndim == 1 and 1 < self.dim)')
+    ok = bool(ca) and all(match(t, want) is not None for (n, t) in ca)
+    ctx.check(ok, ev, 'unwrap exactly for a single point',
+              'scalar input, or a 1-d input when there are several parameters',
+              'the unwrap condition is {}'.format([show(t)[:80] for (n, t) in ca]), fn=ev,
+              node=ca[0][0] if ca else ev.node)
+    for f in (ev, gl):
+        ex = ctx.ex(f)
+        rs = [n for n in own_nodes(f.node) if isinstance(n, ast.Assign) and
+              match(ex.raw(n.value), pattern('_x.reshape((-1, self.dim))')) is not None]
+        ctx.check(bool(rs), f, 'query reshaped to rows of dim columns', 'x.reshape((-1, dim))',
+                  'the query is not reshaped to (n, dim)', fn=f, node=rs[0] if rs else f.node)
